@@ -2,26 +2,45 @@
    Model: theories/Query.v (internal/query/conditions.go after fixes/C03-*.patch, C14-*.patch).
    Proofs: QuerySort, QueryClean, QueryFlags, QueryHosts, QueryOps, QuerySet, QueryAtoms, QueryMain, QueryTotal. *)
 From Coq Require Import List NArith ZArith Bool Permutation.
-From Pk Require Import Query QuerySort QueryClean QueryFlags QueryHosts QueryOps QuerySet QueryAtoms QueryMain QueryTotal QuerySeq.
+From Pk Require Import Query QuerySort QueryClean QueryFlags QueryHosts QueryOps QuerySet QueryAtoms QueryMain QueryTotal QuerySeq QueryThen.
 Import ListNotations.
 
 (* (1) Meaning is preserved. For every valuation (one stream per sub-query name with ids, ports, byte counts >= 0,
-   ftime <= ltime, tag states; an ARBITRARY payload oracle) and every well-formed expression built from AND, OR, NOT,
-   parentheses, sort/limit/group directives over every filter kind (value lists, ranges, open ranges, masks,
-   variables, sub-queries), the conditions returned by query.Parse evaluate to the meaning of the text as written.
-   _partial: expressions containing THEN are not covered by this theorem (see c03_*_sequences below and notes/C03.md). *)
+   ftime <= ltime, tag states; an ARBITRARY payload oracle, matching started at any position) and every well-formed
+   expression of the class `tail_ok`, the conditions returned by query.Parse evaluate to the meaning of the text as
+   written. `tail_ok`: AND, OR, NOT, parentheses, sort/limit/group directives in any nesting over every filter kind
+   (value lists, ranges, open ranges, masks, variables, sub-queries), and THEN whose LEFT operand is an OR group of
+   sequences of plain / negated payload filters (steps may themselves be OR groups, `data:` included) and whose RIGHT
+   operand is any expression of the class again (AND / OR / NOT groups, negated sequences, further THENs).
+   _partial: of the judged fragment (wf_seq) this leaves out THEN whose left operand contains an AND group or a
+   non-payload filter (e.g. `(cdata:x tag:a) then cdata:y`, `(cdata:x cdata:y) then cdata:z`) or a negated OR group
+   (`-(cdata:x or cdata:y) then cdata:z`); those are covered by the correspondence runs only (notes/C03.md). *)
 Theorem c03_normalisation_preserves_meaning_partial :
   forall (v : valuation) (e : expr),
-    val_ok v -> ids_ok v -> then_free e = true -> expr_wf e ->
+    val_ok v -> ids_ok v -> tail_ok e = true -> expr_wf e ->
     eval_set v (parse_conditions e) = sem v e.
-Proof. exact normalisation_preserves_meaning. Qed.
+Proof. exact normalisation_preserves_meaning_then. Qed.
 
 (* (2) "matches nothing" (Parse returns the empty set) only for expressions no stream can satisfy. *)
 Theorem c03_impossible_only_if_unsatisfiable_partial :
   forall e : expr,
-    then_free e = true -> expr_wf e -> parse_conditions e = [] ->
+    tail_ok e = true -> expr_wf e -> parse_conditions e = [] ->
     forall v : valuation, val_ok v -> ids_ok v -> sem v e = false.
-Proof. exact impossible_only_if_unsatisfiable. Qed.
+Proof. exact impossible_only_if_unsatisfiable_then. Qed.
+
+(* the class of (1) and (2) contains every expression without THEN and lies inside the judged fragment *)
+Theorem c03_class_contains_then_free : forall e : expr, then_free e = true -> tail_ok e = true.
+Proof. exact then_free_tail_ok. Qed.
+Theorem c03_class_inside_judged_fragment : forall e : expr, tail_ok e = true -> wf_seq true e = true.
+Proof. exact tail_ok_judged. Qed.
+
+(* Conditions.then: a sequence conjunct followed by ANY conjunct, from any position *)
+Theorem c03_conj_then_sound :
+  forall (v : valuation) (ds : list datac) (M : list N) (c2 : conj),
+    seq_inv ds M -> conj_wf c2 ->
+    eval_conj v (conj_then (chains ds) c2) =
+    eval_conj v (chains ds) && match pos_of v M with Some q => eval_conj (at_pos v q) c2 | None => false end.
+Proof. exact conj_then_sem. Qed.
 
 (* (1') THEN on sequences of plain and negated payload filters of any length,
    `l1 then l2 then ... then ln` with li ::= [cs]data:x | -[cs]data:x : the normal form built by Conditions.then
@@ -94,7 +113,9 @@ Proof. exact negated_group_in_sequence_refuted. Qed.
 
 (* the hypotheses are satisfiable *)
 Example c03_hypotheses_satisfiable :
-  (val_ok ex_val /\ ids_ok ex_val) /\ (then_free ex_tf = true /\ expr_wf ex_tf).
-Proof. exact hypotheses_satisfiable. Qed.
+  (val_ok ex_val /\ ids_ok ex_val) /\ (tail_ok ex_then = true /\ expr_wf ex_then).
+Proof. exact hypotheses_satisfiable_then. Qed.
+Example c03_example_value_then : eval_set ex_val (parse_conditions ex_then) = sem ex_val ex_then.
+Proof. vm_compute. reflexivity. Qed.
 Example c03_example_value : eval_set ex_val (parse_conditions ex_tf) = sem ex_val ex_tf.
 Proof. vm_compute. reflexivity. Qed.
